@@ -14,7 +14,10 @@ from vlib import gen
 from vlib.harness import Oracle, Skip, Violation, require, sut
 
 RULE = (
-    "A case is an operation sequence on one temporary directory with two archive names: "
+    "A case is an operation sequence on one temporary directory with two archive names, "
+    "generated either by a Hypothesis RuleBasedStateMachine (oracle stateful_machine: rules = "
+    "operations, preconditions on the model state, invariant after every step) or as a drawn "
+    "list of operations executed by the same runner: "
     "save(mineral, whole file | distinct postfix from [A-Za-z0-9_-]{1,12}) with generated "
     "phase (0..1), fabric (0..5), regime (0..7), grain count 1..30, 1..6 snapshots of "
     "arbitrary float64 bit patterns (random 64-bit words reinterpreted as doubles, so NaN "
@@ -153,114 +156,132 @@ def _load(how, path, pf, into_n):
     return m
 
 
-def check_sequence(case):
-    d = tempfile.mkdtemp(prefix="c17_")
-    try:
-        files = [os.path.join(d, "a.npz"), os.path.join(d, "sub", "b.npz")]
-        model = {0: {}, 1: {}}  # file -> {postfix or None: ref}
-        order = {0: [], 1: []}
-        loads = {0: [], 1: []}
-        n_loads = n_faults = 0
-        for step, o in enumerate(case["ops"]):
-            if o["op"] == "save":
-                fi, pf = o["file"], o["pf"]
-                if pf is not None and pf in model[fi]:
-                    continue  # postfixes must be distinct
-                m = build(o["m"])
-                sut(m.save, files[fi], postfix=pf)
-                if pf is None:
-                    model[fi] = {}
-                    order[fi] = []
-                    loads[fi] = []
-                model[fi][pf] = model_of(o["m"])
-                order[fi].append(pf)
-                # saving must not alter the saved object
-                _check_loaded(m, model[fi][pf], f"step {step}: object after save")
-            elif o["op"] == "load":
-                entries = [(fi, pf) for fi in (0, 1) for pf in model[fi]]
-                if not entries:
-                    continue
-                fi, pf = entries[o["pick"] % len(entries)]
-                m = _load(o["how"], files[fi], pf, o["into_n"])
-                _check_loaded(m, model[fi][pf], f"step {step}: {o['how']}({os.path.basename(files[fi])}, postfix={pf!r})")
-                loads[fi].append(pf)
-                n_loads += 1
-            else:
-                n_faults += 1
-                before = listing(d)
-                kind = o["kind"]
-                md = o["m"]
-                fi = o["file"]
-                pf = o["pf"]
-                if pf is not None and pf in model[fi]:
-                    pf = pf + "_f"
-                m = build(md)
-                raised = None
-                must_raise = True
-                try:
-                    if kind == "unequal_counts":
-                        m.fractions = m.fractions + [m.fractions[0]]
-                        m.save(files[fi], postfix=pf)
-                    elif kind == "n_mismatch":
-                        m.n_grains = md["n"] + 1
-                        m.save(files[fi], postfix=pf)
-                    elif kind == "later_snapshot_size":
-                        if md["steps"] < 2:
-                            continue
-                        m.fractions[-1] = np.append(m.fractions[-1], 0.5)
-                        m.orientations[-1] = np.concatenate([m.orientations[-1], np.eye(3)[None]])
-                        m.save(files[fi], postfix=pf)
-                    elif kind == "load_non_npz":
-                        bad = os.path.join(d, "c.dat")
-                        shutil.copyfile(files[fi], bad) if os.path.exists(files[fi]) else open(bad, "wb").close()
-                        before = listing(d)
-                        m.load(bad, postfix=None)
-                    elif kind == "from_file_non_npz":
-                        bad = os.path.join(d, "c.npy")
-                        shutil.copyfile(files[fi], bad) if os.path.exists(files[fi]) else open(bad, "wb").close()
-                        before = listing(d)
-                        _minerals.Mineral.from_file(bad, postfix=None)
-                    else:  # save_non_npz
-                        must_raise = False
-                        m.save(os.path.join(d, "plain.dat"), postfix=pf)
-                except ValueError as e:
-                    raised = e
-                except Exception as e:  # noqa: BLE001
-                    raise Violation(f"step {step}: fault {kind} raised {type(e).__name__} instead of ValueError: {str(e)[:120]}")
-                if must_raise:
-                    require(raised is not None, f"step {step}: fault {kind} was accepted instead of raising ValueError")
-                if raised is not None:
-                    after = listing(d)
-                    require(after == before, f"step {step}: fault {kind} raised but changed files on disk: {sorted(set(after) ^ set(before)) or 'contents differ'}")
-                elif kind == "save_non_npz":
-                    # accepted: remove whatever it wrote so that later listings stay comparable
-                    for fn in set(listing(d)) - set(before):
-                        os.unlink(os.path.join(d, fn))
-            # directory invariant: exactly the archives that the model knows
-            have = set(listing(d)) - {"c.dat", "c.npy"}
-            want = {os.path.relpath(files[fi], d) for fi in (0, 1) if model[fi]}
-            require(have == want, f"step {step}: files on disk {sorted(have)} != expected {sorted(want)}")
-        # final sweep: everything ever saved (and not overwritten) is still recoverable, both loaders
+class ArchiveRunner:
+    """Executes save / load / fault operations against real archives and an in-memory model;
+    every `step` checks the invariants.  Shared by the generated-sequence oracles and by the
+    Hypothesis rule-based state machine."""
+
+    def __init__(self):
+        self.d = tempfile.mkdtemp(prefix="c17_")
+        self.files = [os.path.join(self.d, "a.npz"), os.path.join(self.d, "sub", "b.npz")]
+        self.model = {0: {}, 1: {}}  # file -> {postfix or None: ref}
+        self.order = {0: [], 1: []}
+        self.loads = {0: [], 1: []}
+        self.n_loads = self.n_faults = 0
+        self.nstep = 0
+
+    def close(self):
+        shutil.rmtree(self.d, ignore_errors=True)
+
+    def entries(self):
+        return [(fi, pf) for fi in (0, 1) for pf in self.model[fi]]
+
+    def step(self, o):
+        d, files, model, order, loads = self.d, self.files, self.model, self.order, self.loads
+        step = self.nstep
+        self.nstep += 1
+        if o["op"] == "save":
+            fi, pf = o["file"], o["pf"]
+            if pf is not None and pf in model[fi]:
+                return  # postfixes must be distinct
+            m = build(o["m"])
+            sut(m.save, files[fi], postfix=pf)
+            if pf is None:
+                model[fi] = {}
+                order[fi] = []
+                loads[fi] = []
+            model[fi][pf] = model_of(o["m"])
+            order[fi].append(pf)
+            # saving must not alter the saved object
+            _check_loaded(m, model[fi][pf], f"step {step}: object after save")
+        elif o["op"] == "load":
+            entries = self.entries()
+            if not entries:
+                return
+            fi, pf = entries[o["pick"] % len(entries)]
+            m = _load(o["how"], files[fi], pf, o["into_n"])
+            _check_loaded(m, model[fi][pf], f"step {step}: {o['how']}({os.path.basename(files[fi])}, postfix={pf!r})")
+            loads[fi].append(pf)
+            self.n_loads += 1
+        else:
+            self.n_faults += 1
+            before = listing(d)
+            kind = o["kind"]
+            md = o["m"]
+            fi = o["file"]
+            pf = o["pf"]
+            if pf is not None and pf in model[fi]:
+                pf = pf + "_f"
+            m = build(md)
+            raised = None
+            must_raise = True
+            try:
+                if kind == "unequal_counts":
+                    m.fractions = m.fractions + [m.fractions[0]]
+                    m.save(files[fi], postfix=pf)
+                elif kind == "n_mismatch":
+                    m.n_grains = md["n"] + 1
+                    m.save(files[fi], postfix=pf)
+                elif kind == "later_snapshot_size":
+                    if md["steps"] < 2:
+                        return
+                    m.fractions[-1] = np.append(m.fractions[-1], 0.5)
+                    m.orientations[-1] = np.concatenate([m.orientations[-1], np.eye(3)[None]])
+                    m.save(files[fi], postfix=pf)
+                elif kind == "load_non_npz":
+                    bad = os.path.join(d, "c.dat")
+                    shutil.copyfile(files[fi], bad) if os.path.exists(files[fi]) else open(bad, "wb").close()
+                    before = listing(d)
+                    m.load(bad, postfix=None)
+                elif kind == "from_file_non_npz":
+                    bad = os.path.join(d, "c.npy")
+                    shutil.copyfile(files[fi], bad) if os.path.exists(files[fi]) else open(bad, "wb").close()
+                    before = listing(d)
+                    _minerals.Mineral.from_file(bad, postfix=None)
+                else:  # save_non_npz
+                    must_raise = False
+                    m.save(os.path.join(d, "plain.dat"), postfix=pf)
+            except ValueError as e:
+                raised = e
+            except Exception as e:  # noqa: BLE001
+                raise Violation(f"step {step}: fault {kind} raised {type(e).__name__} instead of ValueError: {str(e)[:120]}")
+            if must_raise:
+                require(raised is not None, f"step {step}: fault {kind} was accepted instead of raising ValueError")
+            if raised is not None:
+                after = listing(d)
+                require(after == before, f"step {step}: fault {kind} raised but changed files on disk: {sorted(set(after) ^ set(before)) or 'contents differ'}")
+            elif kind == "save_non_npz":
+                # accepted: remove whatever it wrote so that later listings stay comparable
+                for fn in set(listing(d)) - set(before):
+                    os.unlink(os.path.join(d, fn))
+        # directory invariant: exactly the archives that the model knows
+        have = set(listing(d)) - {"c.dat", "c.npy"}
+        want = {os.path.relpath(files[fi], d) for fi in (0, 1) if model[fi]}
+        require(have == want, f"step {step}: files on disk {sorted(have)} != expected {sorted(want)}")
+
+    def finish(self):
+        """Final sweep: everything ever saved (and not overwritten) is recoverable, both loaders."""
         for fi in (0, 1):
-            for pf in reversed(order[fi]):
+            for pf in reversed(self.order[fi]):
                 for how in ("from_file", "load"):
-                    m = _load(how, files[fi], pf, 3)
-                    _check_loaded(m, model[fi][pf], f"final sweep {how}({os.path.basename(files[fi])}, postfix={pf!r})")
-        nontrivial = False
-        for fi in (0, 1):
-            pfs = [p for p in order[fi] if p is not None]
-            ld = [p for p in loads[fi] if p is not None]
-            if len(pfs) >= 3 and len(ld) >= 2 and ld != [p for p in pfs if p in ld]:
-                nontrivial = True
-            if len(pfs) >= 3:
-                nontrivial = True  # the final sweep loads in reverse save order
+                    m = _load(how, self.files[fi], pf, 3)
+                    _check_loaded(m, self.model[fi][pf], f"final sweep {how}({os.path.basename(self.files[fi])}, postfix={pf!r})")
+        nontrivial = any(len([p for p in self.order[fi] if p is not None]) >= 3 for fi in (0, 1))  # the sweep loads in reverse save order
         return {
             "nontrivial": nontrivial,
-            "labels": [f"saves{min(sum(len(v) for v in order.values()), 8)}", f"loads{min(n_loads, 8)}", f"faults{min(n_faults, 4)}"],
+            "labels": [f"saves{min(sum(len(v) for v in self.order.values()), 8)}", f"loads{min(self.n_loads, 8)}", f"faults{min(self.n_faults, 4)}"],
             "residual": 0.0,
         }
+
+
+def check_sequence(case):
+    r = ArchiveRunner()
+    try:
+        for o in case["ops"]:
+            r.step(o)
+        return r.finish()
     finally:
-        shutil.rmtree(d, ignore_errors=True)
+        r.close()
 
 
 def classify(case):
@@ -304,7 +325,75 @@ def sequence_case(min_saves, max_saves, max_loads, max_faults):
     )
 
 
+def make_machine(hooks):
+    """Hypothesis rule-based state machine over the same executor (`ArchiveRunner`): rules are
+    the operations, preconditions depend on the model state, the recoverability invariant runs
+    after every step, and the applied operation list is the replayable case."""
+    from hypothesis.stateful import RuleBasedStateMachine, invariant, precondition, rule
+
+    class ArchiveMachine(RuleBasedStateMachine):
+        def __init__(self):
+            super().__init__()
+            self.r = ArchiveRunner()
+            self.ops = []
+            self.failed = False
+
+        def _apply(self, op):
+            if hooks.over_budget():
+                return
+            self.ops.append(op)
+            try:
+                self.r.step(op)
+            except Violation as v:
+                self.failed = True
+                if hooks.fail({"ops": list(self.ops)}, str(v), v.residual):
+                    raise
+
+        @rule(file=st.sampled_from([0, 0, 0, 1]), pf=postfix, m=mineral_data())
+        def save_postfix(self, file, pf, m):
+            self._apply({"op": "save", "file": file, "pf": pf, "m": m})
+
+        @rule(file=st.integers(0, 1), m=mineral_data())
+        def save_whole(self, file, m):
+            self._apply({"op": "save", "file": file, "pf": None, "m": m})
+
+        @precondition(lambda self: bool(self.r.entries()))
+        @rule(pick=st.integers(0, 1000), into_n=st.integers(1, 40), how=st.sampled_from(["load", "from_file"]))
+        def load(self, pick, into_n, how):
+            self._apply({"op": "load", "pick": pick, "into_n": into_n, "how": how})
+
+        @rule(
+            kind=st.sampled_from(["unequal_counts", "n_mismatch", "later_snapshot_size", "load_non_npz", "from_file_non_npz", "save_non_npz"]),
+            file=st.integers(0, 1),
+            pf=st.one_of(st.none(), postfix),
+            m=mineral_data(),
+        )
+        def fault(self, kind, file, pf, m):
+            self._apply({"op": "fault", "kind": kind, "file": file, "pf": pf, "m": m})
+
+        @invariant()
+        def everything_recoverable(self):
+            if self.failed or hooks.over_budget():
+                return
+            try:
+                self._info = self.r.finish()
+            except Violation as v:
+                self.failed = True
+                if hooks.fail({"ops": list(self.ops)}, str(v), v.residual):
+                    raise
+
+        def teardown(self):
+            try:
+                if not self.failed and self.ops:
+                    hooks.done({"ops": list(self.ops)}, getattr(self, "_info", None))
+            finally:
+                self.r.close()
+
+    return ArchiveMachine
+
+
 ORACLES = [
+    Oracle("stateful_machine", None, check_sequence, classify=classify, machine=make_machine, machine_steps=25, quick=60, thorough=300),
     Oracle("save_load_sequence", sequence_case(1, 8, 10, 3), check_sequence, classify=classify, quick=160, thorough=1500),
     Oracle("save_load_many_postfixes", sequence_case(4, 8, 12, 2), check_sequence, classify=classify, quick=80, thorough=1000),
     Oracle("save_load_sequence_long", sequence_case(8, 20, 30, 6), check_sequence, classify=classify, quick=0, thorough=200),
